@@ -11,9 +11,9 @@ CHECKS = {
   "ref": "DESIGN.md 7/C07",
  },
  "C15": {
-  "text": "Lean proves expand_rename (an IRI written with any prefix bound to the same namespace expands identically), expand_total_on_grammar (the expander accepts every IRI the path grammar accepts - tied to the regenerated grammar table), and reuses the order-independence theorems (C01 operand order and spelling independence, C03 level membership, C06 insertion order, C07 distinct variables). Tied by meaning-preserving rewrites of random profiles: all mappings/lists shuffled, conjunctions merged into one map, block/flow style, quoting, comments, indentation, renamed and mixed prefixes - same results as the canonical spelling and as the model.",
+  "text": "Lean proves expand_rename (an IRI written with any prefix bound to the same namespace expands identically), expand_total_on_grammar (the expander accepts every IRI the path grammar accepts - tied to the regenerated grammar table), and reuses the order-independence theorems (C01 operand order and spelling independence, C03 level membership, C06 insertion order, C07 distinct variables). Tied by meaning-preserving rewrites of random profiles: all mappings/lists shuffled, conjunctions merged into one map, block/flow style, quoting, comments, indentation, renamed and mixed prefixes - same results as the canonical spelling and as the model. The profile parser itself (internal/parser/profile: Yaml.Get, ParseExpression/ParseConstraint, levels, prefixes, variable numbering, negation push-down) is modelled in Lean over yaml.v3's node tree (Acv/Model/ProfileParser.lean) with theorems validation_key_order (permuting the keys of any mapping of a validation, at any depth, parses to the same rule), get_perm, precedence_* (which key wins when several expression keys are present), variables_fresh, negate_negate, undefined_names_skipped; that model is tied to the real parser's structural dump on fixtures, generated, mutated, conflicting-key and hostile profiles.",
   "note": "Partial: YAML surface syntax is yaml.v3's job: modelled as 'same node tree', tied only by the metamorphic runs.",
-  "technique": "Lean 4 proof (IRI expander model; corollaries of C01/C03/C06/C07) + metamorphic differential correspondence over YAML rewrites",
+  "technique": "Lean 4 proof (IRI expander model; profile-parser model with key-order/precedence/fresh-variable theorems; corollaries of C01/C03/C06/C07) + differential correspondence of the parser model with the real parser + metamorphic correspondence over YAML rewrites",
   "ref": "DESIGN.md 7/C15",
  },
  "C05": {
